@@ -241,7 +241,7 @@ def run_all(prop, cfg, tier, seed, workroot, scale=1, seed_shift=0):
         shards = spec.get("shards", {}).get(tier, 1)
         per = max(1, total // shards)
         for sh_i in range(shards):
-            s = (seed + seed_shift) * 1000 + si * 100 + sh_i
+            s = spec["fixed_seed"] if "fixed_seed" in spec else (seed + seed_shift) * 1000 + si * 100 + sh_i
             jobs.append((spec, s, per, os.path.join(workroot, f"r{si}_{sh_i}_{seed_shift}")))
     results = []
     with concurrent.futures.ThreadPoolExecutor(max_workers=int(os.environ.get("VERIF_JOBS", "12"))) as ex:
